@@ -34,6 +34,9 @@ MUTANTS = [
     ("m31", "helpers.py", "    for i in parallel.as_completed(executors):\n        res.append(i.result())", "    for i in parallel.as_completed(executors):\n        res.append(i.result())\n        if len(res) > 5:\n            break", [H + "get_pool_results"], True),
     ("m50", "abstract.py", "            (self._best_agent, ), (self._worst_agent, ) = special_agents(self._population, n_best=1, n_worst=1)\n\n            # stop when", "            self.optimization_step()\n            (self._best_agent, ), (self._worst_agent, ) = special_agents(self._population, n_best=1, n_worst=1)\n\n            # stop when", [A + "optimize"], True),
     ("m51", "abstract.py", "rates=self._errors,", "rates=self._error_diffs,", [A + "optimize"], True),
+    ("m52", "abstract.py", "return [-c for c in cost] if isinstance(cost, list) else -cost", "return [c for c in cost] if isinstance(cost, list) else -cost", [A + "_fcn"], True),
+    ("m53", "abstract.py", "cost = np.dot(cost, self._task.objective_weights) if", "cost = np.dot(cost, cost) if", [A + "_init_agent"], True),
+    ("h61", "abstract.py", "cost = np.dot(cost, self._task.objective_weights) if", "cost = np.dot(self._task.objective_weights, cost) if", [A + "_init_agent"], False),
     ("h60", "helpers.py", "    pop_new = population.copy()\n    pop_new.sort(", "    sorted_population = population.copy()\n    pop_new = sorted_population\n    pop_new.sort(", [H + "sort_by_cost"], False),
 ]
 RUNNER = r'''
